@@ -776,6 +776,20 @@ CORPUS += [
 ]
 
 
+# a remainder whose divisor is a compound constant, in a derived quantity and in a rate law (fixed cases: the parentheses of
+# `_mod_operands` are checked for every seed)
+for _div in [["*", ["c", "2"], ["m", "pi"]], ["m", "tau"], ["/", ["m", "pi"], ["c", "2"]], ["*", ["c", "3"], ["m", "e"]]]:
+    CORPUS += [
+        {"content": {"vars": [["x", {"v": "8"}]], "pars": [["p", {"v": "2"}]],
+                     "derived": [["d", _rich("f", ["x", "p"], ["+", ["%", ["a", 0], _div], ["a", 1]])]],
+                     "rxns": [["r", {"args": ["d", "x"], "e": _F["mul"], "name": "g", "st": [["x", {"c": "-1"}]]}]]},
+         "oracle_only": True, "queries": [["args", None, "0"], ["rhs", None, "0"], ["rhs", [["x", "5"]], "0"]]},
+        {"content": {"vars": [["x", {"v": "8"}]], "pars": [["p", {"v": "2"}]], "derived": [],
+                     "rxns": [["r", dict(_rich("g", ["x", "p"], ["*", ["%", ["a", 0], _div], ["a", 1]]), st=[["x", {"c": "-1"}]])]]},
+         "oracle_only": True, "queries": [["args", None, "0"], ["rhs", None, "0"], ["rhs", [["x", "5"]], "0"]]},
+    ]
+
+
 # --------------------------------------------------------------------------- outside the four kinds: units, data
 
 
